@@ -543,24 +543,45 @@ func oracle(c Case) vkit.Outcome {
 					}
 				}
 			}
+			set := m.tblG[op.User][op.DSN][op.Table]
 			if ok {
-				applyPerms(m.tblG[op.User][op.DSN][op.Table], op.Perms)
+				applyPerms(set, op.Perms)
 				for _, p := range op.Perms {
 					if p[0] == '+' {
 						granted = append(granted, gkey{op.User, op.DSN, op.Table})
 					}
 				}
-				// the store must now record exactly the model's set
-				var pr struct {
-					Permissions []string `json:"permissions"`
+			}
+			// what the store records now (the PUT's own answer, or for an
+			// ordinary user's attempt the administrator's GET of the same path)
+			var pr struct {
+				Permissions []string `json:"permissions"`
+			}
+			src := r
+			if actor != 3 {
+				src = e.do(3, "GET", path, "")
+			}
+			if src.Status/100 == 2 && src.JSON(&pr) == nil {
+				got := map[string]bool{}
+				for _, p := range pr.Permissions {
+					got[strings.TrimPrefix(p, "ego.table.")] = true
 				}
-				if r.JSON(&pr) == nil {
-					got := map[string]bool{}
-					for _, p := range pr.Permissions {
-						got[strings.TrimPrefix(p, "ego.table.")] = true
-					}
-					if setString(got) != setString(m.tblG[op.User][op.DSN][op.Table]) {
-						if o, stop := fail("permission-store-differs-from-grants-made", fmt.Sprintf("after PUT %s %s the store reports {%s}", path, b, setString(got)), "{"+setString(m.tblG[op.User][op.DSN][op.Table])+"}"); stop {
+				if setString(got) != setString(set) {
+					actorHas := op.DSN == 1 || m.dsnG[actor%3]["admin"] || m.tblG[actor%3][0][op.Table]["admin"]
+					switch {
+					case actor != 3 && !ok && actorHas:
+						// GrantPermissions applies the change and then answers through
+						// ReadPermissions, which authorizes again: a table administrator
+						// who removes their own admin grant gets 403 although the change
+						// was stored. The caller was entitled to make it; follow the store.
+						out.Labels = append(out.Labels, "ugrant by a table administrator answered 4xx but was applied; model follows the store")
+						m.tblG[op.User][op.DSN][op.Table] = got
+					case actor != 3 && !ok:
+						if o, stop := fail("rejected-grant-attempt-changed-the-store", fmt.Sprintf("%s: PUT %s %s -> %d, afterwards the store reports {%s}", userNames[actor], path, b, r.Status, setString(got)), "unchanged: {"+setString(set)+"}"); stop {
+							return o
+						}
+					default:
+						if o, stop := fail("permission-store-differs-from-grants-made", fmt.Sprintf("after PUT %s %s -> %d the store reports {%s}", path, b, r.Status, setString(got)), "{"+setString(set)+"}"); stop {
 							return o
 						}
 					}
